@@ -18,7 +18,7 @@ for d in sorted(glob.glob("seeded/C*-m*")):
     if "obsolete" in (meta.get("caught_by") or {}):
         continue
     prop = sid.split("-")[0]
-    ids = [prop] + EXTRA.get(prop, [])
+    ids = [prop] + ([] if os.environ.get("SEEDALL_OWN") else EXTRA.get(prop, []))
     t0 = time.time()
     p = subprocess.run(["python3", "tools/seedtest.py", d + "/patch.diff"] + ids, capture_output=True, text=True)
     out = p.stdout + p.stderr
